@@ -19,9 +19,12 @@
 (*   RetryDelMark    the separate, unprotected delete of the marker        *)
 (*   RetryDone       handleCompletedReplicatorRetry(success): no marker    *)
 (*                   left -> delete the record, status active; else due now*)
-(*  B side (net/server.go, internal/db/messages.go)                        *)
-(*   the push is acknowledged when processPushlog has stored the blocks    *)
-(*   and PUBLISHED a merge event (volatile); BMerge = executeMerge commits *)
+(*  B side (net/server.go, net/sync_dag.go, internal/db/messages.go)       *)
+(*   PushRecv        processPushlog / syncDAG stored the pushed HEAD block *)
+(*                   (durable) and starts to fetch the blocks it links to  *)
+(*   PushOK          the links are loaded, a merge event is PUBLISHED      *)
+(*                   (volatile) and the push is acknowledged               *)
+(*   BMerge          executeMerge commits                                  *)
 (*  Environment                                                            *)
 (*   BDown(kind)     "net": B unreachable, its process lives;              *)
 (*                   "restart": B's process stops, the volatile merge      *)
@@ -39,73 +42,92 @@
 (*                     after a patch (replayed on the real code: it does,  *)
 (*                     the retried push after a patch IS merged; TRUE is   *)
 (*                     the pinned behaviour, FALSE a what-if)               *)
+(*   AckIfHeadPresent  a what-if (FALSE is the pinned behaviour): the      *)
+(*                     receiver acknowledges a push whose head block it    *)
+(*                     already stores without syncing or merging; "head    *)
+(*                     stored" does not imply "head merged" (PushRecv)     *)
 (***************************************************************************)
 EXTENDS Integers, Sequences, FiniteSets, TLC, SequencesExt
 
 CONSTANTS Docs, MaxV, MaxDown, AllowPatch,
-          DurableInbox, SafeMarkDelete, RetryUsesRootId
+          DurableInbox, SafeMarkDelete, RetryUsesRootId, AckIfHeadPresent
 
 VARIABLES ver,      \* ver[d]   : number of commits A has written to d (A's head)
           bmer,     \* bmer[d]  : highest version merged on B
           binbox,   \* set of [d, v, ok] merge events queued on B (ok = FALSE: will be dropped by the merge)
           bup,      \* "up" | "net" | "restart"
           push,     \* set of [d, v] first-attempt pushes in flight on A
+          bsync,    \* subset of push: B has stored the head block of the push and is loading its links
+          bheads,   \* set of [d, v]: head blocks in B's block store (durable)
           rec,      \* retry record on A: "none" | "idle" (due) | "retrying"
           marks,    \* set of documents with a retry marker
           rtq,      \* markers the running retryReplicator still has to visit (its iterator)
           rtcur,    \* document whose retried push succeeded and whose marker is about to be deleted (0 = none; documents are positive integers)
           patched,  \* the schema has been patched
           downs
-vars == <<ver, bmer, binbox, bup, push, rec, marks, rtq, rtcur, patched, downs>>
+vars == <<ver, bmer, binbox, bup, push, bsync, bheads, rec, marks, rtq, rtcur, patched, downs>>
 
 Init == /\ ver = [d \in Docs |-> 0] /\ bmer = [d \in Docs |-> 0] /\ binbox = {} /\ bup = "up"
-        /\ push = {} /\ rec = "none" /\ marks = {} /\ rtq = <<>> /\ rtcur = 0 /\ patched = FALSE /\ downs = 0
+        /\ push = {} /\ bsync = {} /\ bheads = {} /\ rec = "none" /\ marks = {} /\ rtq = <<>> /\ rtcur = 0 /\ patched = FALSE /\ downs = 0
 
 MaxOf(a, b) == IF a > b THEN a ELSE b
 Reachable == bup = "up"
 
 Write(d) == /\ ver[d] < MaxV /\ ver' = [ver EXCEPT ![d] = @ + 1]
             /\ push' = push \cup {[d |-> d, v |-> ver[d] + 1]}
-            /\ UNCHANGED <<bmer, binbox, bup, rec, marks, rtq, rtcur, patched, downs>>
-PushOK(t) == /\ t \in push /\ Reachable /\ push' = push \ {t}
+            /\ UNCHANGED <<bmer, binbox, bup, bsync, bheads, rec, marks, rtq, rtcur, patched, downs>>
+Known(t) == AckIfHeadPresent /\ t \in bheads
+\* the head block is written first (syncDAG: linkSystem.Store), its links are fetched afterwards
+PushRecv(t) == /\ t \in push \ bsync /\ Reachable
+               /\ IF Known(t) THEN /\ push' = push \ {t}          \* what-if: acknowledged, nothing synced or merged
+                                    /\ UNCHANGED <<bsync, bheads>>
+                  ELSE /\ bsync' = bsync \cup {t} /\ bheads' = bheads \cup {t} /\ UNCHANGED push
+               /\ UNCHANGED <<ver, bmer, binbox, bup, rec, marks, rtq, rtcur, patched, downs>>
+PushOK(t) == /\ t \in bsync /\ Reachable /\ push' = push \ {t} /\ bsync' = bsync \ {t}
              /\ binbox' = binbox \cup {[d |-> t.d, v |-> t.v, ok |-> TRUE]}
-             /\ UNCHANGED <<ver, bmer, bup, rec, marks, rtq, rtcur, patched, downs>>
-PushFail(t) == /\ t \in push /\ ~Reachable /\ push' = push \ {t}
+             /\ UNCHANGED <<ver, bmer, bup, bheads, rec, marks, rtq, rtcur, patched, downs>>
+\* B unreachable: before anything was stored, or in the middle of the sync (the head block stays behind)
+PushFail(t) == /\ t \in push /\ ~Reachable /\ push' = push \ {t} /\ bsync' = bsync \ {t}
                /\ rec' = IF rec = "none" THEN "idle" ELSE rec
                /\ marks' = marks \cup {t.d}
-               /\ UNCHANGED <<ver, bmer, binbox, bup, rtq, rtcur, patched, downs>>
+               /\ UNCHANGED <<ver, bmer, binbox, bup, bheads, rtq, rtcur, patched, downs>>
 BMerge(e) == /\ e \in binbox /\ bup # "restart" /\ binbox' = binbox \ {e}
              /\ bmer' = [bmer EXCEPT ![e.d] = IF e.ok THEN MaxOf(@, e.v) ELSE @]
-             /\ UNCHANGED <<ver, bup, push, rec, marks, rtq, rtcur, patched, downs>>
+             /\ UNCHANGED <<ver, bup, push, bsync, bheads, rec, marks, rtq, rtcur, patched, downs>>
 BDown(kind) == /\ bup = "up" /\ downs < MaxDown /\ bup' = kind /\ downs' = downs + 1
                /\ binbox' = IF kind = "restart" /\ ~DurableInbox THEN {} ELSE binbox
-               /\ UNCHANGED <<ver, bmer, push, rec, marks, rtq, rtcur, patched>>
-BUp == /\ bup # "up" /\ bup' = "up" /\ UNCHANGED <<ver, bmer, binbox, push, rec, marks, rtq, rtcur, patched, downs>>
+               \* the handlers of a stopped process are gone (the head blocks they stored are not); the pushes themselves
+               \* stay in flight on A until its call fails (PushFail) or, if B is back first, is served again
+               /\ bsync' = IF kind = "restart" THEN {} ELSE bsync
+               /\ UNCHANGED <<ver, bmer, push, bheads, rec, marks, rtq, rtcur, patched>>
+BUp == /\ bup # "up" /\ bup' = "up" /\ UNCHANGED <<ver, bmer, binbox, push, bsync, bheads, rec, marks, rtq, rtcur, patched, downs>>
 Patch == /\ AllowPatch /\ ~patched /\ patched' = TRUE
-         /\ UNCHANGED <<ver, bmer, binbox, bup, push, rec, marks, rtq, rtcur, downs>>
+         /\ UNCHANGED <<ver, bmer, binbox, bup, push, bsync, bheads, rec, marks, rtq, rtcur, downs>>
 
 RetryTick == /\ rec = "idle" /\ rec' = "retrying" /\ rtq' = SetToSortSeq(marks, <) /\ rtcur' = 0
-             /\ UNCHANGED <<ver, bmer, binbox, bup, push, marks, patched, downs>>
+             /\ UNCHANGED <<ver, bmer, binbox, bup, push, bsync, bheads, marks, patched, downs>>
 RetryDocOK == /\ rec = "retrying" /\ rtcur = 0 /\ rtq # <<>> /\ Reachable
               /\ LET d == Head(rtq) IN
-                 /\ binbox' = IF ver[d] > 0 THEN binbox \cup {[d |-> d, v |-> ver[d], ok |-> RetryUsesRootId \/ ~patched]} ELSE binbox
+                 /\ binbox' = IF ver[d] > 0 /\ ~Known([d |-> d, v |-> ver[d]])
+                              THEN binbox \cup {[d |-> d, v |-> ver[d], ok |-> RetryUsesRootId \/ ~patched]} ELSE binbox
+                 /\ bheads' = IF ver[d] > 0 THEN bheads \cup {[d |-> d, v |-> ver[d]]} ELSE bheads
                  /\ rtcur' = d
                  /\ marks' = IF SafeMarkDelete THEN marks \ {d} ELSE marks
-              /\ UNCHANGED <<ver, bmer, bup, push, rec, rtq, patched, downs>>
+              /\ UNCHANGED <<ver, bmer, bup, push, bsync, bheads, rec, rtq, patched, downs>>
 RetryDocFail == /\ rec = "retrying" /\ rtcur = 0 /\ rtq # <<>> /\ ~Reachable
                 /\ rec' = "idle" /\ rtq' = <<>>
-                /\ UNCHANGED <<ver, bmer, binbox, bup, push, marks, rtcur, patched, downs>>
+                /\ UNCHANGED <<ver, bmer, binbox, bup, push, bsync, bheads, marks, rtcur, patched, downs>>
 RetryDelMark == /\ rec = "retrying" /\ rtcur # 0
                 /\ marks' = IF SafeMarkDelete THEN marks ELSE marks \ {rtcur}
                 /\ rtcur' = 0 /\ rtq' = Tail(rtq)
-                /\ UNCHANGED <<ver, bmer, binbox, bup, push, rec, patched, downs>>
+                /\ UNCHANGED <<ver, bmer, binbox, bup, push, bsync, bheads, rec, patched, downs>>
 RetryDone == /\ rec = "retrying" /\ rtcur = 0 /\ rtq = <<>>
              /\ rec' = IF marks = {} THEN "none" ELSE "idle"
-             /\ UNCHANGED <<ver, bmer, binbox, bup, push, marks, rtq, rtcur, patched, downs>>
+             /\ UNCHANGED <<ver, bmer, binbox, bup, push, bsync, bheads, marks, rtq, rtcur, patched, downs>>
 
 Task == [d : Docs, v : 1..MaxV]
 InboxItem == [d : Docs, v : 1..MaxV, ok : BOOLEAN]
-Sys == \/ \E t \in Task : PushOK(t) \/ PushFail(t)
+Sys == \/ \E t \in Task : PushRecv(t) \/ PushOK(t) \/ PushFail(t)
        \/ \E e \in InboxItem : BMerge(e)
        \/ RetryTick \/ RetryDocOK \/ RetryDocFail \/ RetryDelMark \/ RetryDone
 Env == (\E d \in Docs : Write(d)) \/ (\E k \in {"net", "restart"} : BDown(k)) \/ BUp \/ Patch
